@@ -40,8 +40,9 @@ EDate(s, k) == ShiftMonth(s, k, FALSE)
 EoMonth(s, k) == ShiftMonth(s, k, TRUE)
 \* DATEDIF for s1 <= s2
 Months(s1, s2) == LET a == Civil(s1) b == Civil(s2) IN 12 * (b.y - a.y) + (b.m - a.m) - (IF b.d < a.d THEN 1 ELSE 0)
-\* the one situation where "complete months" is debatable: the end date is the last day of a month
-\* shorter than the start day (Jan 31 -> Feb 28): not demanded
+\* a month is complete when the day of the month of the start date has been reached again (Excel's DATEDIF: Jan 31 -> Feb 28
+\* is 0 complete months, Feb 29 2020 -> Feb 28 2021 is 0 complete years).  ClampedEnd marks the pairs where a clamping
+\* "anniversary" reading (EDATE(start, k) <= end) would count one more; it is used by the laws only.
 AmbiguousMonths(s1, s2) == LET a == Civil(s1) b == Civil(s2) IN b.d < a.d /\ b.d = DaysInMonth(b.y, b.m)
 DateDif(u, s1, s2) == CASE u = "D" -> s2 - s1 [] u = "M" -> Months(s1, s2) [] u = "Y" -> Months(s1, s2) \div 12 [] u = "YM" -> Months(s1, s2) % 12
 \* NETWORKDAYS with a set of holiday serials
